@@ -2,10 +2,26 @@
 // API-observable results (same format as lean/Driver/C19.lean). Every input and output buffer is a
 // heap block of EXACTLY the advertised size so that AddressSanitizer sees a one-byte overrun;
 // UBSan's bounds check sees a negative / too large index into a constant table.
+//
+// Memory placement (round 7, lesson c): an op line may end in `@<M><i><o>` (M = R|L, i/o = 0..7). Every
+// input buffer of that op then starts at an address = i (mod 8), every output buffer at o (mod 8):
+//   R  right-aligned: malloc(a + n), block = last n bytes, the ASan redzone starts directly behind its
+//      last byte (a one-byte over-read / over-write is a report); the a bytes in front are a canary.
+//   L  left-aligned: malloc(a + n + 8), block starts a bytes after the allocation base (for a = 0 directly
+//      behind ASan's left redzone), canaries of a bytes in front and 8 bytes behind.
+// The models are placement independent, so every placement must give the model's answer; a damaged
+// canary prints `P GUARD-OVERWRITTEN`.
+// Aborting preconditions (TBOX_ASSERT) are observed for real: the call runs in a forked child and the
+// parent reports how the child ended (`assert` = SIGABRT).
 #include "vh.h"
 #include <cstring>
 #include <memory>
 #include <stdexcept>
+#include <functional>
+#include <csignal>
+#include <fcntl.h>
+#include <unistd.h>
+#include <sys/wait.h>
 #include <tbox/util/base64.h>
 #include <tbox/util/string.h>
 #include <tbox/util/scalable_integer.h>
@@ -19,13 +35,67 @@
 using namespace tbox;
 using Bytes = std::vector<uint8_t>;
 
-// heap copy of exactly v.size() bytes (a valid non-null pointer also for size 0)
+struct Place { char mode = 0; unsigned ain = 0, aout = 0; };
+static Place g_pl;
+static bool g_guard_bad = false;
+
+// heap block of exactly `n` bytes at the placement selected for the current op (a valid non-null pointer also for n = 0)
 struct Exact {
-    std::unique_ptr<uint8_t[]> p; size_t n;
-    explicit Exact(size_t size) : p(new uint8_t[size]), n(size) { if (n) memset(p.get(), 0xA5, n); }
-    explicit Exact(const Bytes &v) : p(new uint8_t[v.size()]), n(v.size()) { if (n) memcpy(p.get(), v.data(), n); }
-    uint8_t *get() { return p.get(); }
+    uint8_t *base = nullptr, *ptr = nullptr; size_t n = 0, pre = 0, post = 0;
+    void alloc(size_t size, unsigned align) {
+        n = size;
+        pre = g_pl.mode ? align : 0;
+        post = g_pl.mode == 'L' ? 8 : 0;
+        base = (uint8_t *)malloc(pre + n + post);      // 16-byte aligned base, ASan redzones on both sides
+        if (!base) { std::cout << "CRASH no-memory\n" << std::flush; _exit(3); }
+        ptr = base + pre;
+        if (pre) memset(base, 0xC3, pre);
+        if (post) memset(ptr + n, 0x3C, post);
+    }
+    explicit Exact(size_t size) { alloc(size, g_pl.aout); if (n) memset(ptr, 0xA5, n); }
+    explicit Exact(const Bytes &v) { alloc(v.size(), g_pl.ain); if (n) memcpy(ptr, v.data(), n); }
+    Exact(const Exact &) = delete; Exact &operator=(const Exact &) = delete;
+    bool guards_ok() const {
+        for (size_t i = 0; i < pre; ++i) if (base[i] != 0xC3) return false;
+        for (size_t i = 0; i < post; ++i) if (ptr[n + i] != 0x3C) return false;
+        return true;
+    }
+    ~Exact() { if (!guards_ok()) g_guard_bad = true; free(base); }
+    uint8_t *get() { return ptr; }
 };
+
+// runs f in a forked child (stdout/stderr of the library silenced); f may report text through the pipe.
+// returns how the child ended: returned | assert (SIGABRT) | asan | ubsan | sig<n> | exit<n>
+static std::string probe(const std::function<void(int)> &f, std::string &text) {
+    std::cout << std::flush; fflush(stdout);
+    int pfd[2]; if (pipe(pfd) != 0) return "no-pipe";
+    pid_t pid = -1;
+    for (int attempt = 0; attempt < 100 && pid < 0; ++attempt) {     // a loaded machine may refuse a fork transiently
+        pid = fork();
+        if (pid < 0) usleep(50000);
+    }
+    if (pid < 0) { close(pfd[0]); close(pfd[1]); return "no-fork"; }
+    if (pid == 0) {
+        close(pfd[0]);
+        int dn = open("/dev/null", O_WRONLY); if (dn >= 0) { dup2(dn, 1); dup2(dn, 2); }
+        f(pfd[1]);
+        _exit(0);
+    }
+    close(pfd[1]);
+    text.clear(); char buf[512]; ssize_t k;
+    while ((k = read(pfd[0], buf, sizeof buf)) > 0) text.append(buf, (size_t)k);
+    close(pfd[0]);
+    int st = 0; waitpid(pid, &st, 0);
+    if (WIFSIGNALED(st)) return WTERMSIG(st) == SIGABRT ? "assert" : "sig" + std::to_string(WTERMSIG(st));
+    int ec = WEXITSTATUS(st);
+    return ec == 0 ? "returned" : ec == 99 ? "asan" : ec == 98 ? "ubsan" : "exit" + std::to_string(ec);
+}
+static void say(int fd, const std::string &s) { ssize_t r = write(fd, s.data(), s.size()); (void)r; }
+// the precondition-violating call must abort: prints `P <op> assert`, anything else is a difference
+static std::string must_assert(const std::string &op, const std::function<void()> &f) {
+    std::string t; std::string how = probe([&](int) { f(); }, t);
+    return how == "assert" ? "P " + op + " assert" : "P " + op + " NO-ASSERT:" + how;
+}
 
 static std::string str_of(const Bytes &b) { return std::string(b.begin(), b.end()); }
 
@@ -70,6 +140,13 @@ static std::string with_ref(bool has_ref, const std::string &ref, const std::str
 // returns false for bad-op; appends output lines to out
 static bool run(std::vector<std::string> w, std::vector<std::string> &out) {
     bool has_ref = false; std::string ref;
+    g_pl = Place();
+    if (!w.empty() && w.back().size() == 4 && w.back()[0] == '@') {
+        const std::string &t = w.back();
+        if ((t[1] != 'R' && t[1] != 'L') || t[2] < '0' || t[2] > '7' || t[3] < '0' || t[3] > '7') return false;
+        g_pl.mode = t[1]; g_pl.ain = (unsigned)(t[2] - '0'); g_pl.aout = (unsigned)(t[3] - '0');
+        w.pop_back();
+    }
     if (!w.empty() && w.back().compare(0, 4, "ref=") == 0) { has_ref = true; ref = w.back().substr(4); w.pop_back(); }
     if (w.empty()) return false;
     const std::string &op = w[0];
@@ -77,7 +154,11 @@ static bool run(std::vector<std::string> w, std::vector<std::string> &out) {
 
     // ------------------------------------------------------------------ Base64
     if (op == "b64.enc" && w.size() == 2 && vh::unhex(w[1], a)) {
-        if (a.empty()) { out.push_back("P b64.enc assert"); return true; }
+        if (a.empty()) {
+            Exact in(a);
+            out.push_back(must_assert("b64.enc", [&] { util::base64::Encode(in.get(), 0); }));
+            return true;
+        }
         Exact in(a);
         std::string s1 = util::base64::Encode(in.get(), in.n);
         std::string s2 = util::base64::Encode(a);
@@ -86,7 +167,11 @@ static bool run(std::vector<std::string> w, std::vector<std::string> &out) {
         return true;
     }
     if (op == "b64.encbuf" && w.size() == 3 && vh::unhex(w[1], a) && vh::to_u64(w[2], n) && n < (1u << 24)) {
-        if (a.empty() || n == 0) { out.push_back("P b64.encbuf assert"); return true; }
+        if (a.empty() || n == 0) {
+            Exact in(a), o(n);
+            out.push_back(must_assert("b64.encbuf", [&] { util::base64::Encode(in.get(), in.n, (char *)o.get(), n); }));
+            return true;
+        }
         Exact in(a), o(n);
         size_t r = util::base64::Encode(in.get(), in.n, (char *)o.get(), n);
         out.push_back("P b64.encbuf ret=" + std::to_string(r) + " out=" + vh::hex(o.get(), r <= n ? r : 0));
@@ -112,15 +197,42 @@ static bool run(std::vector<std::string> w, std::vector<std::string> &out) {
         out.push_back("P b64.decvec ret=" + std::to_string(r) + " out=" + vh::hex(o));
         return true;
     }
+    // C-string overloads: the text is everything before the first NUL of a buffer that ends in exactly one NUL
+    if ((op == "b64.decz" && w.size() == 3 && vh::unhex(w[1], a) && vh::to_u64(w[2], n) && n < (1u << 24))
+        || (op == "b64.declenz" && w.size() == 2 && vh::unhex(w[1], a))) {
+        Bytes z = a; z.push_back(0);
+        Exact in(z);
+        if (op == "b64.declenz") {
+            out.push_back("P b64.declenz " + std::to_string(util::base64::DecodeLength((const char *)in.get())));
+            return true;
+        }
+        Exact o(n);
+        size_t r = util::base64::Decode((const char *)in.get(), o.get(), n);
+        out.push_back("P b64.decz ret=" + std::to_string(r) + " out=" + vh::hex(o.get(), r <= n ? r : 0));
+        return true;
+    }
+    // Decode(string, vector&) on a vector that already holds data: the decoded bytes are appended
+    if (op == "b64.decapp" && w.size() == 3 && vh::unhex(w[1], a) && vh::unhex(w[2], b)) {
+        Bytes o = b;
+        size_t r = util::base64::Decode(str_of(a), o);
+        out.push_back("P b64.decapp ret=" + std::to_string(r) + " out=" + vh::hex(o));
+        return true;
+    }
     if (op == "b64.rt" && w.size() == 2 && vh::unhex(w[1], a)) {
-        if (a.empty()) { out.push_back("P b64.rt assert"); return true; }
+        if (a.empty()) {
+            out.push_back(must_assert("b64.rt", [&] { util::base64::Encode(a); }));   // Encode(vector) -> Encode(data(), 0)
+            return true;
+        }
         Exact in(a);
         std::string s = util::base64::Encode(in.get(), in.n);
         Exact enc(Bytes(s.begin(), s.end())), o(a.size());
         size_t dl = util::base64::DecodeLength((const char *)enc.get(), enc.n);
         size_t r = util::base64::Decode((const char *)enc.get(), enc.n, o.get(), o.n);
         Bytes ov; size_t r2 = util::base64::Decode(s, ov);
-        bool good = s.size() == util::base64::EncodeLength(a.size()) && dl == a.size() && r == a.size()
+        Exact oz(a.size());
+        size_t r3 = util::base64::Decode(s.c_str(), oz.get(), oz.n);
+        bool goodz = r3 == a.size() && memcmp(oz.get(), a.data(), a.size()) == 0 && util::base64::DecodeLength(s.c_str()) == a.size();
+        bool good = goodz && s.size() == util::base64::EncodeLength(a.size()) && dl == a.size() && r == a.size()
                     && memcmp(o.get(), a.data(), a.size()) == 0 && r2 == a.size() && ov == a;
         out.push_back(good ? "P b64.rt ok" : "P b64.rt FAIL enc=" + vh::hex(s) + " ret=" + std::to_string(r));
         return true;
@@ -235,23 +347,45 @@ static bool run(std::vector<std::string> w, std::vector<std::string> &out) {
         else { uint64_t x = 0; r = g.des->fetch(x); val = x; }
         out.push_back(des_show(r, std::to_string(val))); return true;
     }
-    if ((op == "des.bytes" || op == "des.pod") && w.size() == 2 && g.des && vh::to_u64(w[1], n) && n <= 4096) {
+    // sizes above 4096 are passed with an EMPTY output block: the call must fail its bounds check without touching it
+    if ((op == "des.bytes" || op == "des.pod") && w.size() == 2 && g.des && vh::to_u64(w[1], n) && std::to_string(n) == w[1]
+        && (n <= 4096 || n > g.des->size())) {
+        if (n > 4096) {
+            Exact o((size_t)0);
+            bool r = op == "des.bytes" ? g.des->fetch(o.get(), n) : g.des->fetchPOD(o.get(), n);
+            out.push_back(des_show(r, "HUGE")); return true;
+        }
         Exact o(n);
         bool r = op == "des.bytes" ? g.des->fetch(o.get(), n) : g.des->fetchPOD(o.get(), n);
         out.push_back(des_show(r, vh::hex(o.get(), n))); return true;
     }
-    if (op == "des.nocopy" && w.size() == 2 && g.des && vh::to_u64(w[1], n) && n <= 4096) {
+    if (op == "des.nocopy" && w.size() == 2 && g.des && vh::to_u64(w[1], n) && std::to_string(n) == w[1]
+        && (n <= 4096 || n > g.des->size())) {
         const void *p = g.des->fetchNoCopy(n);
+        if (p && p != g.des->ptr() - n) { out.push_back("P des NOCOPY-POINTER-NOT-IN-INPUT"); return true; }
         out.push_back(des_show(p != nullptr, p ? vh::hex((const uint8_t *)p, n) : std::string("-"))); return true;
     }
-    if (op == "des.skip" && w.size() == 2 && g.des && vh::to_u64(w[1], n) && n < (1ull << 62)) {
+    if (op == "des.skip" && w.size() == 2 && g.des && vh::to_u64(w[1], n) && std::to_string(n) == w[1]) {
         out.push_back(des_show(g.des->skip(n), "-"));
         if (out.back().find("ret=1") != std::string::npos) out.back() = "P des ret=1 val=- pos=" + std::to_string(g.des->pos());
         return true;
     }
-    if (op == "des.setpos" && w.size() == 2 && g.des && vh::to_u64(w[1], n) && n < (1ull << 62)) {
+    if (op == "des.setpos" && w.size() == 2 && g.des && vh::to_u64(w[1], n) && std::to_string(n) == w[1]) {
         bool r = g.des->set_pos(n);
         out.push_back(std::string("P des ret=") + (r ? "1" : "0") + " val=- pos=" + std::to_string(g.des->pos())); return true;
+    }
+    // checkSize(n) and the accessors start() / size() / ptr()
+    if (op == "des.check" && w.size() == 2 && g.des && vh::to_u64(w[1], n) && std::to_string(n) == w[1]) {
+        bool r = g.des->checkSize(n);
+        bool acc = g.des->start() == g.des_buf->get() && g.des->ptr() == g.des->start() + g.des->pos();
+        out.push_back(std::string("P des check=") + (r ? "1" : "0") + " pos=" + std::to_string(g.des->pos()) + " size="
+                      + std::to_string(g.des->size()) + (acc ? "" : " ACCESSORS-WRONG"));
+        return true;
+    }
+    // append(p, n) with a size the fixed buffer cannot hold (up to SIZE_MAX): must refuse and store nothing
+    if (op == "ser.big" && w.size() == 2 && g.ser && g.ser_raw && vh::to_u64(w[1], n) && std::to_string(n) == w[1] && n > g.ser_buf->n) {
+        Exact in((size_t)0);
+        out.push_back(ser_show(g.ser->append(in.get(), n))); return true;
     }
     if (op == "des.endian" && w.size() == 2 && g.des && endian_of(w[1], e)) {
         g.des->setEndian(e); out.push_back("P des endian"); return true;
@@ -267,6 +401,17 @@ static bool run(std::vector<std::string> w, std::vector<std::string> &out) {
             if (k == "i1" || k == "i2" || k == "i4" || k == "i8") {
                 f.kind = 'i'; f.width = k[1] - '0';
                 if (!vh::to_u64(val, f.v) || std::to_string(f.v) != val || !fits(f.v, f.width)) return false;
+            } else if (k == "s1" || k == "s2" || k == "s4" || k == "s8") {
+                f.kind = 's'; f.width = k[1] - '0'; int64_t sv; uint64_t mag;
+                bool neg = !val.empty() && val[0] == '-';
+                if (!vh::to_u64(neg ? val.substr(1) : val, mag) || val.size() > 20 || mag > (1ull << 63) || (!neg && mag == (1ull << 63))) return false;
+                sv = (int64_t)(neg ? 0 - mag : mag);
+                if (std::to_string(sv) != val) return false;
+                if (f.width < 8 && (sv < -(1ll << (8 * f.width - 1)) || sv >= (1ll << (8 * f.width - 1)))) return false;
+                f.v = (uint64_t)sv;
+            } else if (k == "f4" || k == "f8") {
+                f.kind = 'f'; f.width = k[1] - '0';
+                if (!vh::unhex(val, f.bs) || (int)f.bs.size() != f.width) return false;
             } else if (k == "r" || k == "p") { f.kind = k[0]; if (!vh::unhex(val, f.bs)) return false; }
             else if (k == "e") { f.kind = 'e'; if (!endian_of(val, f.e)) return false; }
             else return false;
@@ -278,6 +423,12 @@ static bool run(std::vector<std::string> w, std::vector<std::string> &out) {
             if (f.kind == 'i') {
                 if (f.width == 1) s << (uint8_t)f.v; else if (f.width == 2) s << (uint16_t)f.v;
                 else if (f.width == 4) s << (uint32_t)f.v; else s << (uint64_t)f.v;
+            } else if (f.kind == 's') {
+                int64_t sv = (int64_t)f.v;
+                if (f.width == 1) s << (int8_t)sv; else if (f.width == 2) s << (int16_t)sv;
+                else if (f.width == 4) s << (int32_t)sv; else s << (int64_t)sv;
+            } else if (f.kind == 'f') {     // the bit pattern is the value (NaNs included): memcpy in and out
+                if (f.width == 4) { float x; memcpy(&x, f.bs.data(), 4); s << x; } else { double x; memcpy(&x, f.bs.data(), 8); s << x; }
             } else if (f.kind == 'r') { Exact in(f.bs); s.append(in.get(), in.n); }
             else if (f.kind == 'p') { Exact in(f.bs); s.appendPOD(in.get(), in.n); }
             else s << f.e;
@@ -291,6 +442,15 @@ static bool run(std::vector<std::string> w, std::vector<std::string> &out) {
                 if (f.width == 1) { uint8_t x = 0; d >> x; got = x; } else if (f.width == 2) { uint16_t x = 0; d >> x; got = x; }
                 else if (f.width == 4) { uint32_t x = 0; d >> x; got = x; } else { uint64_t x = 0; d >> x; got = x; }
                 good = good && got == f.v;
+            } else if (f.kind == 's') {
+                int64_t got = 0;
+                if (f.width == 1) { int8_t x = 0; d >> x; got = x; } else if (f.width == 2) { int16_t x = 0; d >> x; got = x; }
+                else if (f.width == 4) { int32_t x = 0; d >> x; got = x; } else { int64_t x = 0; d >> x; got = x; }
+                good = good && got == (int64_t)f.v;
+            } else if (f.kind == 'f') {
+                uint8_t back[8] = {0};
+                if (f.width == 4) { float x = 0; d >> x; memcpy(back, &x, 4); } else { double x = 0; d >> x; memcpy(back, &x, 8); }
+                good = good && memcmp(back, f.bs.data(), (size_t)f.width) == 0;
             } else if (f.kind == 'r' || f.kind == 'p') {
                 Exact o(f.bs.size());
                 bool r = f.kind == 'r' ? d.fetch(o.get(), o.n) : d.fetchPOD(o.get(), o.n);
@@ -310,6 +470,24 @@ static bool run(std::vector<std::string> w, std::vector<std::string> &out) {
         Exact in(a);
         std::string r = std::to_string(util::CalcCrc32(in.get(), in.n, (uint32_t)v));
         out.push_back(with_ref(has_ref, ref, r, "P crc32 " + r)); return true;
+    }
+    // chained calls: the CRC of a ++ b from the CRC of a. CalcCrc16 returns the register itself, CalcCrc32 its complement,
+    // so the seed of the second call is crc16(a) resp. ~crc32(a) (C19_crc_chain)
+    if ((op == "crc32.chain" || op == "crc16.chain") && w.size() == 4 && vh::unhex(w[1], a) && vh::unhex(w[2], b)
+        && vh::to_u64(w[3], v) && v < (op == "crc32.chain" ? (1ull << 32) : 65536ull)) {
+        Bytes ab = a; ab.insert(ab.end(), b.begin(), b.end());
+        Exact whole(ab), ia(a), ib(b);
+        if (op == "crc32.chain") {
+            uint32_t W = util::CalcCrc32(whole.get(), whole.n, (uint32_t)v);
+            uint32_t C = util::CalcCrc32(ib.get(), ib.n, ~util::CalcCrc32(ia.get(), ia.n, (uint32_t)v));
+            uint32_t N = util::CalcCrc32(ib.get(), ib.n, util::CalcCrc32(ia.get(), ia.n, (uint32_t)v));
+            out.push_back("P crc32.chain whole=" + std::to_string(W) + " chained=" + std::to_string(C) + " naive=" + std::to_string(N));
+        } else {
+            uint16_t W = util::CalcCrc16(whole.get(), whole.n, (uint16_t)v);
+            uint16_t C = util::CalcCrc16(ib.get(), ib.n, util::CalcCrc16(ia.get(), ia.n, (uint16_t)v));
+            out.push_back("P crc16.chain whole=" + std::to_string(W) + " chained=" + std::to_string(C));
+        }
+        return true;
     }
     if (op == "sum8" && w.size() == 2 && vh::unhex(w[1], a)) {
         Exact in(a);
@@ -337,7 +515,47 @@ static bool run(std::vector<std::string> w, std::vector<std::string> &out) {
         } catch (const std::out_of_range &) { out.push_back("P url.rt FAIL exc=out_of_range"); }
         return true;
     }
+    // StringToUrlHost (user:password@host:port; the port goes through std::stoi and is narrowed to uint16_t) and back
+    if (op == "url.host" && w.size() == 2 && vh::unhex(w[1], a)) {
+        http::Url::Host h;
+        bool r = false; std::string how = "-";
+        try { r = http::StringToUrlHost(str_of(a), h); } catch (const std::exception &) { how = "exception-escaped"; }
+        out.push_back(std::string("P url.host ret=") + (r ? "1" : "0") + " user=" + vh::hex(h.user) + " pw=" + vh::hex(h.password) + " host="
+                      + vh::hex(h.host) + " port=" + std::to_string(h.port) + " str=" + vh::hex(http::UrlHostToString(h))
+                      + (how == "-" ? "" : " " + how));
+        return true;
+    }
+    if (op == "url.mkhost" && w.size() == 5 && vh::unhex(w[1], a) && vh::unhex(w[2], b) && vh::to_u64(w[4], n) && n < 65536) {
+        Bytes c; if (!vh::unhex(w[3], c)) return false;
+        http::Url::Host h; h.user = str_of(a); h.password = str_of(b); h.host = str_of(c); h.port = (uint16_t)n;
+        std::string t = http::UrlHostToString(h);
+        http::Url::Host k; bool r = false;
+        try { r = http::StringToUrlHost(t, k); } catch (const std::exception &) { r = false; }
+        bool same = r && k.user == h.user && k.password == h.password && k.host == h.host && k.port == h.port;
+        out.push_back("P url.mkhost str=" + vh::hex(t) + " rt=" + (same ? "1" : "0"));
+        return true;
+    }
     // ------------------------------------------------------------------ MD5
+    // life cycle: `u:<hex>` = update, `f` = finish; runs in a forked child because update / finish on a finished object abort
+    if (op == "md5.seq" && w.size() >= 2) {
+        struct Step { bool fin; Bytes data; };
+        std::vector<Step> steps;
+        for (size_t i = 1; i < w.size(); ++i) {
+            if (w[i] == "f") steps.push_back({true, {}});
+            else if (w[i].compare(0, 2, "u:") == 0) { Step st{false, {}}; if (!vh::unhex(w[i].substr(2), st.data)) return false; steps.push_back(st); }
+            else return false;
+        }
+        std::string text;
+        std::string how = probe([&](int fd) {
+            crypto::MD5 md5;
+            for (auto &st : steps) {
+                if (st.fin) { Exact dig(16); md5.finish(dig.get()); say(fd, " " + vh::hex(dig.get(), 16)); }
+                else { Exact in(st.data); md5.update(in.get(), in.n); say(fd, " u"); }
+            }
+        }, text);
+        out.push_back("P md5.seq" + text + " end=" + how);
+        return true;
+    }
     if (op == "md5") {
         std::vector<Bytes> ps(w.size() - 1);
         for (size_t i = 1; i < w.size(); ++i) if (!vh::unhex(w[i], ps[i - 1])) return false;
@@ -376,6 +594,25 @@ static bool run(std::vector<std::string> w, std::vector<std::string> &out) {
         }
         return true;
     }
+    // AES(k1 or nullptr) ; setKey(k2) ; cipher / invcipher of each block with the same object, in place
+    if (op == "aes.seq" && w.size() >= 4 && vh::unhex(w[1], a) && (a.size() == 16 || a.empty()) && vh::unhex(w[2], b) && (b.size() == 16 || b.empty())
+        && !(a.empty() && b.empty())) {
+        std::vector<Bytes> blks(w.size() - 3);
+        for (size_t i = 3; i < w.size(); ++i) if (!vh::unhex(w[i], blks[i - 3]) || blks[i - 3].size() != 16) return false;
+        Exact k1(a), k2(b);
+        crypto::AES aes(a.empty() ? nullptr : k1.get());
+        if (!b.empty()) aes.setKey(k2.get());
+        std::string line = "P aes.seq";
+        for (auto &blk : blks) {
+            Exact io(blk);
+            aes.cipher(io.get(), io.get());
+            line += " " + vh::hex(io.get(), 16);
+            aes.invcipher(io.get(), io.get());
+            line += memcmp(io.get(), blk.data(), 16) == 0 ? "+" : "!";
+        }
+        out.push_back(line);
+        return true;
+    }
     return false;
 }
 
@@ -387,8 +624,12 @@ int main() {
         if (w[0] == "case") { g.reset(); std::cout << line << "\n" << std::flush; continue; }
         std::vector<std::string> out;
         bool ok = false;
+        g_guard_bad = false;
         ok = run(w, out);
+        g_pl = Place();
         if (!ok) { std::cout << "bad-op\n"; continue; }
+        if ((g.ser_buf && !g.ser_buf->guards_ok()) || (g.des_buf && !g.des_buf->guards_ok())) g_guard_bad = true;
+        if (g_guard_bad) out.push_back("P GUARD-OVERWRITTEN");
         for (auto &l : out) std::cout << l << "\n";
         std::cout << std::flush;
     }
